@@ -300,7 +300,14 @@ fn replay(case: &Value, st: &mut Stats, seed: u64) {
         .as_array()
         .map(|a| {
             a.iter()
-                .map(|f| (f["call"].as_u64().unwrap_or(0), if f["kind"].as_str() == Some("ErrSticky") { Dev::ErrSticky } else { Dev::Err }))
+                .map(|f| {
+                    let kind = match f["kind"].as_str() {
+                        Some("ErrSticky") => Dev::ErrSticky,
+                        Some(k) if k.starts_with("Short(") => Dev::Short(k[6..k.len() - 1].parse().unwrap_or(1)),
+                        _ => Dev::Err,
+                    };
+                    (f["call"].as_u64().unwrap_or(0), kind)
+                })
                 .collect()
         })
         .unwrap_or_default();
@@ -337,14 +344,14 @@ pub fn run(args: &Args) -> i32 {
     }
     let thorough = args.tier.thorough();
     let src = crate::props::c02::sources(seed);
-    let wscn = writer_scenarios(seed, if thorough { 3 } else { 2 });
+    let wscn = writer_scenarios(seed, 3);
     let rscn = c09::scenarios(seed, 700);
     ctx.rule = format!(
         "E-DEV over faults. Writer: every sequence of 1..={} composites over a 12-composite alphabet (plain/compressed/large files, directory, symlink, extra data, aligned, ZipCrypto, raw copy) + finish + explicit drop, and append onto 4 bases (two files, empty, large-file extra data, prefixed foreign) + each composite: {} scenarios. \
          Reader: 7 archives (all methods, ZipCrypto, AE-1, AE-2, prefixed ZIP64) through the seekable reader, the plain ones also through the streaming loop and the visitor. For each scenario the failure-free run numbers its N I/O calls; a hard error is injected at EVERY call index, transient (that call only) and sticky (that call and all later ones); \
          all PAIRS of transient faults for scenarios with N <= {}. The script always runs to its end. Oracle: no call panics (incl. finish, Drop for ZipWriter, Drop for ZipFile); if no call reported an error, the result equals the failure-free run's. \
          distinct_nontrivial = distinct (scenario, fault set) executions in which the injected fault was actually reached (counted).",
-        if thorough { 3 } else { 2 },
+        3,
         wscn.len(),
         if thorough { 150 } else { 60 }
     );
@@ -381,6 +388,8 @@ pub fn run(args: &Args) -> i32 {
             for k1 in 0..b.n {
                 for k2 in k1 + 1..b.n {
                     witems.push((i, vec![(k1, Dev::Err), (k2, Dev::Err)]));
+                    // a short transfer (1 byte accepted) at k1 followed by a hard error at k2
+                    witems.push((i, vec![(k1, Dev::Short(1)), (k2, Dev::Err)]));
                 }
             }
         }
